@@ -711,7 +711,11 @@ pub fn explore<I>(cfg: &Config, setup: impl FnOnce() -> I, body: impl Fn(&I)) ->
                     e.forked.iter().map(|(l, b)| if *b { l.clone() } else { format!("(not {})", l) }).collect();
                 let mut s = pc.join(" ∧ ");
                 if s.len() > 600 {
-                    s.truncate(600);
+                    let mut cut = 600;
+                    while !s.is_char_boundary(cut) {
+                        cut -= 1;
+                    }
+                    s.truncate(cut);
                     s.push('…');
                 }
                 e.stats.sample_paths.push(s);
